@@ -561,12 +561,55 @@ var c17Frame = []string{
 	"if err := lineDecoder.Err(); err != nil {\n\treturn fmt.Errorf(\"parse config error: %v\", err)\n}",
 }
 
+const c17DecodeLoop = `{
+	c.mutex.Lock()
+	defer c.mutex.Unlock()
+	c.content = content
+	xmlDecoder := xml.NewDecoder(bytes.NewReader(c.content))
+	var nodeStack []*elem
+	nodeStack = append(nodeStack, c.root)
+	for {
+		currNode := nodeStack[len(nodeStack)-1]
+		token, err := xmlDecoder.Token()
+		if token == nil {
+			if err != nil && err != io.EOF {
+				return fmt.Errorf("parse config error: %v", err)
+			}
+			break
+		}
+		switch t := token.(type) {
+		case xml.CharData:
+			ELIDED
+		case xml.StartElement:
+			ELIDED
+		case xml.EndElement:
+			ELIDED
+		}
+	}
+	return nil
+}`
+
+var c17TagCases = map[string]string{
+	"xml.StartElement": `nodeName := t.Name.Local
+node, ok := currNode.findChild(nodeName)
+if !ok {
+	node = newElem(Node, nodeName)
+	currNode.addChild(nodeName, node)
+}
+nodeStack = append(nodeStack, node)`,
+	"xml.EndElement": `nodeName := t.Name.Local
+if currNode.name != nodeName {
+	return fmt.Errorf("xml end not match :%s", nodeName)
+}
+nodeStack = nodeStack[:len(nodeStack)-1]`,
+}
+
 func c17Xlate(root string) string {
 	var out strings.Builder
 	out.WriteString("(* GENERATED from tars/util/conf/conf.go by `harness gen-c17xlate` on every run - do not edit *)\n")
 	out.WriteString("From Coq Require Import List NArith ZArith Bool.\nFrom TarsV Require Import Base.Hex Conf.Conf Conf.GoStr.\nImport ListNotations.\nOpen Scope bool_scope.\nOpen Scope Z_scope.\n\n")
 	fset := token.NewFileSet()
-	file, err := parser.ParseFile(fset, filepath.Join(root, "tars/util/conf/conf.go"), nil, parser.ParseComments)
+	file, err := parser.ParseFile(fset, filepath.Join(root, "tars/util/conf/conf.go"), nil, 0)
 	if err != nil {
 		out.WriteString("Definition conf_source_unreadable := go_unsupported_parse.\n")
 		return out.String()
@@ -641,6 +684,41 @@ func c17Xlate(root string) string {
 		report(x)
 		fmt.Fprintf(&out, "(* InitFromBytes, case xml.CharData: the body of `for lineDecoder.Scan()`; g_text = lineDecoder.Text() *)\nDefinition tr_conf_line (g_text : gstr) : option (list conf_effect) :=\n  let g_eff := ([] : list conf_effect) in\n  %s.\n", body)
 		fmt.Fprintf(&out, "(* ... and the statements around it are the pinned ones (scanner over the token, ScanLines, the scanner's error returned) *)\nDefinition tr_conf_line_frame : bool := %s.\n\n", frame)
+	}
+	// the decode loop of InitFromBytes around the three cases, pinned (the cases themselves are elided)
+	{
+		x := newX()
+		ok := "false"
+		if fd := cxFindFunc(file, "Conf", "InitFromBytes"); fd != nil {
+			cases := map[string]string{}
+			ast.Inspect(fd, func(n ast.Node) bool {
+				if cc, isCase := n.(*ast.CaseClause); isCase && len(cc.List) == 1 && strings.HasPrefix(x.src(cc.List[0]), "xml.") {
+					var b []string
+					for _, st := range cc.Body {
+						b = append(b, x.src(st))
+					}
+					cases[x.src(cc.List[0])] = strings.Join(b, "\n")
+					cc.Body = []ast.Stmt{&ast.ExprStmt{X: ast.NewIdent("ELIDED")}}
+					return false
+				}
+				return true
+			})
+			tags := "true"
+			for _, k := range []string{"xml.StartElement", "xml.EndElement"} {
+				if cxSquash(cases[k]) != cxSquash(c17TagCases[k]) {
+					tags = "false"
+					fmt.Fprintf(&out, "(* case %s of InitFromBytes differs from the pinned one:\n%s *)\n", k, strings.ReplaceAll(cases[k], "*)", "* )"))
+				}
+			}
+			fmt.Fprintf(&out, "(* the cases xml.StartElement (re-enter the child of that name or make a node, push) and xml.EndElement (name check, pop), pinned: the model mirrors them by hand *)\nDefinition tr_conf_tag_cases_frame : bool := %s.\n", tags)
+			got := x.src(fd.Body)
+			if cxSquash(got) == cxSquash(c17DecodeLoop) {
+				ok = "true"
+			} else {
+				fmt.Fprintf(&out, "(* the decode loop of InitFromBytes differs from the pinned one:\n%s *)\n", strings.ReplaceAll(got, "*)", "* )"))
+			}
+		}
+		fmt.Fprintf(&out, "(* InitFromBytes outside the three token cases: one element stack seeded with the root, Decoder.Token(), a token error other than io.EOF is returned, nil at the end *)\nDefinition tr_conf_decode_loop_frame : bool := %s.\n\n", ok)
 	}
 	// unit B: analysisPath
 	{
